@@ -85,7 +85,7 @@ def tlc(module, cfg, metadir, workers=1, timeout=900, env=None, xmx="4g", dfs=Fa
     e = {"JAVA_TOOL_OPTIONS": jopts}
     if env:
         e.update(env)
-    cmd = ["java", "-XX:+UseParallelGC", "-Xmx" + xmx, "-cp", JAVA_CP, "tlc2.TLC",
+    cmd = ["java", "-XX:+UseParallelGC", "-XX:ParallelGCThreads=%d" % (4 if workers == 1 else 8), "-Xmx" + xmx, "-cp", JAVA_CP, "tlc2.TLC",
            "-workers", str(workers), "-metadir", WORK + "/" + metadir, "-cleanup",
            "-noGenerateSpecTE", "-config", cfg, module + ".tla"]
     if extra:
